@@ -25,6 +25,8 @@ def features_of(text):
         f.append("negative-default")
     if re.search(r"\{\s*NULL IDENTIFIED BY", text):
         f.append("ioc-null-row")
+    if re.search(r"::=\s*\w+\s*\{\s*NULL\s*\}", text):
+        f.append("parameter-NULL")
     if re.search(r"SET \{\s*(\.\.\.\s*)?\}", text):
         f.append("empty-set")
     if re.search(r"OF (\[[^\]]*\] )?(IMPLICIT |EXPLICIT )?(SET|SEQUENCE) \(SIZE", text):
@@ -79,6 +81,9 @@ def run(tier, seed):
         jobs.append(("valid", FIXED_MODULE, os_, "FX"))
     for fam, ftext in FIXED_FAULTS:
         jobs.append(("fault:" + fam, ftext, (), "FXF"))
+    for nm, ptext in FIXED_PARAM:
+        for os_ in [(), ("-fcompound-names",), ("-fwide-types", "-findirect-choice")]:
+            jobs.append(("valid", ptext, os_, "PAR:" + nm))
     # information object classes / sets (the random generator of this check has none): each shape under three option sets
     for nm, itext in FIXED_IOC:
         for os_ in [(), ("-fwide-types",), ("-fcompound-names", "-findirect-choice")]:
@@ -276,6 +281,14 @@ DeepEl ::= SET OF CHOICE { da [0] Ratio, db [1] SEQUENCE { x Bits } }
 
 END
 """
+
+# parameterized types (not produced by the random generator)
+FIXED_PARAM = [
+    ("type-arguments", "P1 DEFINITIONS AUTOMATIC TAGS ::= BEGIN\nNamed ::= INTEGER (0..7)\nParam { T } ::= SEQUENCE { a INTEGER, b T, c SEQUENCE OF T OPTIONAL }\n"
+                       "X1 ::= Param { INTEGER }\nX2 ::= Param { Named }\nX3 ::= Param { IA5String }\nX4 ::= Param { SEQUENCE { x BOOLEAN } }\n"
+                       "Pair { A, B } ::= CHOICE { l A, r B }\nX5 ::= Pair { BOOLEAN, X1 }\nEND\n"),
+    ("NULL-argument", "P2 DEFINITIONS AUTOMATIC TAGS ::= BEGIN\nParam { T } ::= SEQUENCE { a INTEGER, b T }\nX ::= Param { NULL }\nEND\n"),
+]
 
 _IOC_HEAD = "FS ::= CLASS { &id INTEGER UNIQUE, &Type } WITH SYNTAX { &Type IDENTIFIED BY &id }\n"
 FIXED_IOC = [
